@@ -4,6 +4,8 @@ from props import *  # noqa: F401,F403
 # Baseline configuration (ABI v1, what /repo/_build uses): observable instruments end to end, the
 # synchronous-gauge clause at the storage level (Meter::Create*Gauge is compiled out in ABI v1).
 rc_bin("c17_rc", ["harness/c17_observables_gauges.cc"], lib=True)
+rc_bin("c17_race", ["harness/c17_race.cc"], lib=True)
+rc_bin("c17_race_tsan", ["harness/c17_race.cc"], lib=True, san="tsan")
 # Thorough tier only: the same harness and a second sanitizer build of the SDK compiled with
 # -DOPENTELEMETRY_ABI_VERSION_NO=2, which adds the end-to-end synchronous-gauge target.
 rc_bin("c17_rc_abi2", ["harness/c17_observables_gauges.cc"], lib=True, abi=2)
@@ -36,6 +38,8 @@ PROPS["C17"] = dict(
         SC_NOTE,
     ],
     runs=[
+        run("remove-race", "c17_race", "obs_remove_race", "rc", dict(procs=2, cases=150), dict(procs=4, cases=3000), deterministic=False),
+        run("remove-race-tsan", "c17_race_tsan", "obs_remove_race", "rc", dict(procs=2, cases=100), dict(procs=4, cases=2000), deterministic=False, replay_bin="c17_race_tsan"),
         run("observables", "c17_rc", "obs_model", "rc", dict(procs=10, cases=12000), dict(procs=16, cases=120000)),
         run("sync-gauge-storage", "c17_rc", "sync_gauge_storage", "rc", dict(procs=4, cases=15000),
             dict(procs=8, cases=120000)),
